@@ -90,9 +90,14 @@ fn gen_atom(rng: &mut Rng) -> T {
             2 => -(rng.below(1000) as i32) - 1,
             _ => rng.below(100000) as i32,
         }),
-        2 | 3 => {
+        2 => {
             let m = rng.below(100000) as f64 / *rng.pick(&[8.0, 16.0, 64.0, 1024.0]);
             T::Float(if rng.chance(1, 3) { -m - 0.5 } else { m + 0.25 })
+        }
+        3 => {
+            // written in exponent notation (Rust and S-expression syntax coincide)
+            let f = *rng.pick(&[1e5, 2.5e-3, 1e21, 6.02e23, 1.5e10, 1e-7, 3e8, 4.5e-10, 1e100]);
+            T::Float(if rng.chance(1, 2) { -f } else { f })
         }
         4 | 5 => T::Str((*rng.pick::<&str>(&["", "hello", "two words", "quo\"te", "back\\slash", "tab\there", "λ unicode 中", "new\nline", "(parens)", "semi;colon", "#hash"])).to_string()),
         6 => T::Char(*rng.pick(&['a', 'Z', '0', ' ', 'λ', '中', '\n', '\t', '\\', '\'', '"', '(', ')', ';', '#', '\u{1F600}', '\0', '\x7f'])),
@@ -160,7 +165,14 @@ fn lexpr_string(s: &str) -> String {
 fn macro_src(t: &T, out: &mut String) {
     match t {
         T::Int(i) => write!(out, "{}", i).unwrap(),
-        T::Float(f) => write!(out, "{:?}", f).unwrap(),
+        T::Float(f) => {
+            // {:e} for the values generated in exponent notation, {:?} otherwise
+            if f.abs() >= 1e5 && f.fract() == 0.0 || f.abs() < 1e-2 {
+                write!(out, "{:e}", f).unwrap()
+            } else {
+                write!(out, "{:?}", f).unwrap()
+            }
+        }
         T::Str(s) => write!(out, "{:?}", s).unwrap(),
         T::Char(c) => write!(out, "{:?}", c).unwrap(),
         T::True => out.push_str("#t"),
@@ -216,7 +228,14 @@ fn macro_src(t: &T, out: &mut String) {
 fn text_src(t: &T, out: &mut String) {
     match t {
         T::Int(i) => write!(out, "{}", i).unwrap(),
-        T::Float(f) => write!(out, "{:?}", f).unwrap(),
+        T::Float(f) => {
+            // {:e} for the values generated in exponent notation, {:?} otherwise
+            if f.abs() >= 1e5 && f.fract() == 0.0 || f.abs() < 1e-2 {
+                write!(out, "{:e}", f).unwrap()
+            } else {
+                write!(out, "{:?}", f).unwrap()
+            }
+        }
         T::Str(s) => out.push_str(&lexpr_string(s)),
         T::Char(c) => write!(out, "#\\x{:x}", *c as u32).unwrap(),
         T::True => out.push_str("#t"),
